@@ -599,6 +599,15 @@ def normalize(e):
         except (KeyError, IndexError):
             pass
         return e
+    # `Trait::m(recv, args..)` / `Type::m(recv, args..)` of a method is `recv.m(args..)`
+    if k == 'Call' and e.get('has_self') and len(e.get('ch', [])) >= 2 and e.get('callee') and \
+            not strip_generics(e['callee']).endswith(('Try::branch', 'FromResidual::from_residual')):
+        recv = e['ch'][1]
+        out_ = {kk: vv for kk, vv in e.items() if kk not in ('k', 'ch', 'has_self', 'callee_res', 'callee_name',
+                                                           'callee_local')}
+        out_.update({'k': 'MethodCall', 'method': strip_generics(e['callee']).split('::')[-1],
+                     'ch': [recv] + list(e['ch'][2:]), 'recv_ty': recv.get('ty'), 'ufcs': True})
+        return out_
     # a boolean-valued `if a { b } else { c }` over pure operands is `(a && b) || (!a && c)`
     if k == 'If' and e.get('ty') == 'bool' and len(e.get('ch', [])) == 3 and \
             peel(e['ch'][0]).get('k') != 'LetExpr':
